@@ -16,6 +16,7 @@
 #include <boost/filesystem.hpp>
 #include <boost/system/error_code.hpp>
 #include <fstream>
+#include <set>
 #include <utility>
 
 using namespace icinga;
@@ -337,6 +338,15 @@ bool ConfigObjectUtility::DeleteObjectHelper(const ConfigObject::Ptr& object, bo
 
 		return false;
 	}
+
+	/* Objects whose deletion is under way further up the call stack: an object may (transitively) depend on
+	 * itself, e.g. a TimePeriod that includes itself, and must not be visited again in that case. */
+	static thread_local std::set<ConfigObject *> l_DeletionInProgress;
+
+	if (!l_DeletionInProgress.insert(object.get()).second)
+		return true;
+
+	Defer deletionDone ([&object]() { l_DeletionInProgress.erase(object.get()); });
 
 	for (auto& parentObj : parents) {
 		DeleteObjectHelper(parentObj, cascade, errors, diagnosticInformation, cookie);
